@@ -318,7 +318,7 @@ class PlayCheck(Check):
     def judge(self, req, impl, model, spec):
         f = req.split("\t")
         ops = f[2].split() if len(f) > 2 else []
-        corr = None if impl == model else self.first_diff(impl, model)
+        corr = None if impl == model else self.first_diff(impl, model, self.corr_keys)
         feats = set()
         for o in ops:
             if o in ("null", "undo", "undonull"):
@@ -335,19 +335,26 @@ class PlayCheck(Check):
         oracle = self.oracle_states(req, ops, istates, sstates)
         return corr, oracle, feats, (req if ops else None)
 
+    corr_keys = None   # fields of a state the correspondence compares (None = all)
+
     @staticmethod
-    def first_diff(impl, model):
+    def first_diff(impl, model, only=None):
         a, b = impl.split(" ; "), model.split(" ; ")
         for k, (x, y) in enumerate(zip(a, b)):
             if x != y:
                 dx, dy = kv(x), kv(y)
-                keys = [key for key in dx if dx.get(key) != dy.get(key)]
-                return f"state {k} differs from the model in {keys}: impl {[dx.get(key) for key in keys]} model {[dy.get(key) for key in keys]}"
-        return f"state lists differ in length ({len(a)} vs {len(b)})"
+                keys = [key for key in dx if dx.get(key) != dy.get(key) and (only is None or key in only)]
+                if keys:
+                    return f"state {k} differs from the model in {keys}: impl {[dx.get(key) for key in keys]} model {[dy.get(key) for key in keys]}"
+        if len(a) != len(b):
+            return f"state lists differ in length ({len(a)} vs {len(b)})"
+        return None
 
 
 class C02(PlayCheck):
     pid = "C02"
+    # the key and the evaluation accumulators are the business of C03 and C15
+    corr_keys = ("B", "K", "C", "P", "R", "E", "H", "L")
     props_module = "TcheranVerif.Props.C02"
     seed_offset = 2
     rule = ("operation sequences (legal moves chosen by the Rules spec, nested null moves, take-backs) from corpus "
@@ -382,6 +389,7 @@ class C02(PlayCheck):
 
 class C03(PlayCheck):
     pid = "C03"
+    corr_keys = ("B", "P", "R", "E", "Z", "ZR")
     props_module = "TcheranVerif.Props.C03"
     gen_modules = ("ZobristKeys",)
     seed_offset = 3
@@ -414,6 +422,7 @@ class C03(PlayCheck):
 
 class C15(PlayCheck):
     pid = "C15"
+    corr_keys = ("B", "P", "PH", "MG", "EG", "PHR", "MGR", "EGR")
     props_module = "TcheranVerif.Props.C15"
     gen_modules = ("EvalParams",)
     seed_offset = 15
@@ -1402,6 +1411,86 @@ class C12(SearchCheck):
                                         f"after ucinewgame the search differs from a fresh engine in {keys}", "newgame"))
         if not self._replay:
             issues += self.deep_phase(harness_bin)
+            issues += self.uci_newgame_phase()
+        return issues
+
+    @staticmethod
+    def _norm_info(lines):
+        out = []
+        for l in lines:
+            if l.startswith("info") and " pv " in l or l.startswith("bestmove"):
+                toks = l.split()
+                keep, skip = [], False
+                for t in toks:
+                    if skip:
+                        skip = False
+                        continue
+                    if t in ("time", "nps"):
+                        skip = True
+                        continue
+                    keep.append(t)
+                out.append(" ".join(keep))
+        return out
+
+    def uci_newgame_phase(self):
+        """the real binary: [position p, go depth d, bestmove, ucinewgame, isready, position q, go depth d] against a fresh
+        process given only [position q, go depth d]; the `ucinewgame` is sent the moment `bestmove` arrives while the
+        scheduling hook (H3) holds the search thread after it printed bestmove / after it set the latch, i.e. while it
+        still owns the persistent state — the timing a fast GUI produces"""
+        binary = vlib.build_engine("release")
+        depth = 5 if self.tier == "quick" else 7
+        issues = []
+
+        def run(cmds, delays):
+            e = ucimod.Engine(binary, delays)
+            got = []
+            try:
+                e.send("uci")
+                if e.read_until(lambda l: l == "uciok", 10)[0] is None:
+                    return None
+                for c in cmds:
+                    if c == "@bestmove":
+                        m, seen = e.read_until(lambda l: l.startswith("bestmove"), 60)
+                        got = seen
+                        if m is None:
+                            return None
+                    elif c == "@readyok":
+                        if e.read_until(lambda l: l == "readyok", 60)[0] is None:
+                            return None
+                    else:
+                        e.send(c)
+                e.send("quit")
+            finally:
+                e.kill()
+            return self._norm_info(got)
+
+        jobs = []
+        for k, q in enumerate(self.DEEP):
+            p = self.DEEP[(k + 1) % len(self.DEEP)]
+            for dl in ({"PRINTED": 40}, {"TAIL": 40}, None):
+                jobs.append((p, q, dl))
+
+        def work(job):
+            p, q, dl = job
+            fresh = run([f"position fen {q}", f"go depth {depth}", "@bestmove"], None)
+            used = run([f"position fen {p}", f"go depth {depth}", "@bestmove", "ucinewgame", "isready", "@readyok",
+                        f"position fen {q}", f"go depth {depth}", "@bestmove"], dl)
+            return fresh, used
+
+        with ThreadPoolExecutor(max_workers=6) as ex:
+            results = list(ex.map(work, jobs))
+        for (p, q, dl), (fresh, used) in zip(jobs, results):
+            self.evaluations += 1
+            key = "uci-newgame:" + ("+".join(sorted(dl)) if dl else "no-hold")
+            self.features[key] = self.features.get(key, 0) + 1
+            req = f"uci-newgame\t{p}\t{q}\t{depth}\t{dl}"
+            if fresh is None or used is None:
+                issues.append(Issue("oracle", req, str(used), str(fresh), "", "the engine did not answer in the ucinewgame sequence", "uci-newgame"))
+            elif fresh != used:
+                diff = next((f"{a!r} vs fresh {b!r}" for a, b in zip(used, fresh) if a != b), f"{len(used)} vs {len(fresh)} lines")
+                issues.append(Issue("oracle", req, "\n".join(used), "\n".join(fresh), "",
+                                    f"after ucinewgame (sent on bestmove, search thread held at {dl}) the search of {q} differs from a fresh engine: {diff}",
+                                    "uci-newgame"))
         return issues
 
     DEEP = ["rnbqkbnr/pppppppp/8/8/8/8/PPPPPPPP/RNBQKBNR w KQkq - 0 1",
@@ -1547,9 +1636,11 @@ class C05(UciCheck):
         h.append(("quit", "quit", 0))
         return h
 
-    def run_history(self, binary, h):
+    DELAYS = [None, {"START": 15}, {"PRINTED": 15}, {"TAIL": 15}, {"START": 8, "PRINTED": 8, "TAIL": 8}]
+
+    def run_history(self, binary, h, delays=None):
         """returns (problem|None, counts)"""
-        e = ucimod.Engine(binary)
+        e = ucimod.Engine(binary, delays)
         counts = {"readyok": 0, "bestmove": 0}
         pending_best = 0
         problem = None
@@ -1617,6 +1708,7 @@ class C05(UciCheck):
             with open(self._replay) as f:
                 rp = json.load(f)
             histories = [[tuple(x) for x in rp["history"]]]
+            self.DELAYS = [rp.get("delays")]
         else:
             for _ in range(self.n(40, 1500)):
                 histories.append(self.gen_history(rnd, rnd.randint(3, 14)))
@@ -1625,12 +1717,20 @@ class C05(UciCheck):
         preds = self.ask_driver(reqs, "ctl")
         issues = []
 
-        def work(h):
-            return self.run_history(binary, h)
+        # every history runs under one configuration of the scheduling hook (H3): the search thread is held
+        # before it takes the lock / after it printed bestmove / after it set the latch, so that the commands
+        # that follow land at that step of the thread
+        dcfg = [self.DELAYS[k % len(self.DELAYS)] for k in range(len(histories))]
+
+        def work(hk):
+            return self.run_history(binary, hk[0], hk[1])
 
         with ThreadPoolExecutor(max_workers=6) as ex:
-            results = list(ex.map(work, histories))
-        for h, (problem, counts), (pred, _), req in zip(histories, results, preds, reqs):
+            results = list(ex.map(work, list(zip(histories, dcfg))))
+        for d in dcfg:
+            key = "hold:" + ("+".join(sorted(d)) if d else "none")
+            self.features[key] = self.features.get(key, 0) + 1
+        for h, (problem, counts), (pred, _), req, dl in zip(histories, results, preds, reqs, dcfg):
             self.evaluations += 1
             toks = [t for t, _, _ in h]
             for t in set(toks):
@@ -1643,7 +1743,7 @@ class C05(UciCheck):
             d = kv(pred)
             if problem:
                 i = Issue("oracle", req, str(counts), pred, "", f"{problem}; history: {hist_text}", "uci")
-                i.extra = {"history": [list(x) for x in h]}
+                i.extra = {"history": [list(x) for x in h], "delays": dl}
                 issues.append(i)
                 continue
             if d.get("stuck") != "0":
@@ -1651,7 +1751,7 @@ class C05(UciCheck):
             elif int(d["readyok"]) != counts["readyok"] or int(d["bestmove"]) != counts["bestmove"]:
                 i = Issue("oracle", req, str(counts), pred, "",
                           f"observed {counts} but the history requires readyok={d['readyok']} bestmove={d['bestmove']}: {hist_text}", "uci")
-                i.extra = {"history": [list(x) for x in h]}
+                i.extra = {"history": [list(x) for x in h], "delays": dl}
                 issues.append(i)
         return issues
 
